@@ -106,7 +106,10 @@ type Unit struct {
 	retState     *State
 	retVals      []*SV
 	usedContracts map[string]bool
-	frameAx      map[int]*frameAxiom
+	frameAx      map[int][]*frameAxiom
+	pureHist     map[string][]*pureCall
+	openFacts    []openFact
+	substMaps    []map[*Term]*Term
 	ptrFacts     []ptrFact
 	elemTypes    map[int]types.Type // array-root type id -> element type
 	elemOrder    []int
@@ -115,6 +118,14 @@ type Unit struct {
 type frameAxiom struct {
 	na, prev, bv, cond, guard *Term
 	at                        int
+	rootCond                  func(R *Term) *Term // condition under which every address of object R is preserved
+}
+
+func (u *Unit) addFrameAx(fa *frameAxiom) {
+	if u.frameAx == nil {
+		u.frameAx = map[int][]*frameAxiom{}
+	}
+	u.frameAx[fa.na.id] = append(u.frameAx[fa.na.id], fa)
 }
 
 // frameInstances instantiates the frame axioms on every closed address at which a havocked array is read in ts.
@@ -152,28 +163,26 @@ func (u *Unit) frameInstances(ts []*Term, nAssume int) []*Term {
 			continue
 		}
 		done[t.id] = true
-		fa := u.frameAx[t.Args[0].id]
-		if fa.at > nAssume {
-			continue
-		}
-		a := t.Args[1]
-		cond := c.Subst(fa.cond, map[*Term]*Term{fa.bv: a})
-		inst := c.Implies(c.And(fa.guard, cond), c.Eq(t, c.Select(fa.prev, a)))
-		if inst.IsTrue() {
-			continue
-		}
-		out = append(out, inst)
-		scan(inst)
-	}
-	if os.Getenv("GOVC_DEBUG") == "2" {
-		fmt.Fprintf(os.Stderr, "frameInstances: %d axioms, %d instances, nAssume=%d\n", len(u.frameAx), len(out), nAssume)
-		for id, fa := range u.frameAx {
-			if strings.Contains(fa.na.Name, "Hh9_H_Bool") {
-				fmt.Fprintf(os.Stderr, "  axiom %d %s at=%d seen-select=%v\n", id, fa.na.Name, fa.at, len(done))
+		for _, fa := range u.frameAx[t.Args[0].id] {
+			if fa.at > nAssume {
+				continue
 			}
+			a := t.Args[1]
+			cond := c.Subst(fa.cond, map[*Term]*Term{fa.bv: a})
+			inst := c.Implies(c.And(fa.guard, cond), c.Eq(t, c.Select(fa.prev, a)))
+			if inst.IsTrue() {
+				continue
+			}
+			out = append(out, inst)
+			scan(inst)
 		}
 	}
 	return out
+}
+
+type openFact struct {
+	guard, fact *Term
+	at          int
 }
 
 type ptrFact struct {
@@ -198,7 +207,10 @@ func (u *Unit) assume(guard, fact *Term) {
 		return
 	}
 	if fact.open || (guard != nil && guard.open) {
-		return // facts about bound variables cannot be asserted at top level
+		// facts about bound variables cannot be asserted at top level; they are kept as templates and instantiated
+		// together with the quantified formula they belong to (skolemisation / instantiation in VC generation)
+		u.openFacts = append(u.openFacts, openFact{guard: guard, fact: fact, at: len(u.assumptions)})
+		return
 	}
 	f := fact
 	if guard != nil {
@@ -305,10 +317,24 @@ func (u *Unit) eventArr(ev *havocEvent, key string, prev *Term) *Term {
 	body := c.Implies(c.And(conds...), c.Eq(c.Select(na, r), c.Select(prev, r)))
 	ax := c.Forall([]*Term{r}, body, []*Term{c.mk("select", "", selSort(na), na, r)})
 	u.assume(ev.guard, ax)
-	if u.frameAx == nil {
-		u.frameAx = map[int]*frameAxiom{}
+	fa := &frameAxiom{na: na, prev: prev, bv: r, cond: c.And(conds...), guard: ev.guard, at: len(u.assumptions)}
+	if !isMapKey {
+		fr, bound := ev.frame, ev.bound
+		_, vs := prev.Sort.arrayParts()
+		fa.rootCond = func(R *Term) *Term {
+			cs := []*Term{c.Lt(R, bound)}
+			for _, root := range fr.Roots {
+				cs = append(cs, c.Neq(R, root))
+			}
+			for _, l := range fr.Leaves {
+				if l.Sort == vs {
+					cs = append(cs, c.Neq(R, c.Root(l.Addr)))
+				}
+			}
+			return c.And(cs...)
+		}
 	}
-	u.frameAx[na.id] = &frameAxiom{na: na, prev: prev, bv: r, cond: c.And(conds...), guard: ev.guard, at: len(u.assumptions)}
+	u.addFrameAx(fa)
 	return na
 }
 
@@ -412,4 +438,53 @@ type edge struct {
 	from  *ssa.BasicBlock
 	guard *Term
 	st    *State
+}
+
+// objVer is the version of object R in heap array arr: it changes only when a location of R is written.
+func (u *Unit) objVer(arr, R *Term) *Term {
+	c := u.c
+	f := c.Func("objver", []*Sort{SInt, SInt}, SInt)
+	u.verChain(arr, R)
+	return c.App(f, u.heapToken(arr), R)
+}
+
+// verChain emits the ground facts linking the version of R across the history of the array term.
+func (u *Unit) verChain(arr, R *Term) {
+	c := u.c
+	f := c.Func("objver", []*Sort{SInt, SInt}, SInt)
+	for depth := 0; depth < 5000; depth++ {
+		key := fmt.Sprintf("ver|%d|%d", arr.id, R.id)
+		if u.invDone[key] {
+			return
+		}
+		u.invDone[key] = true
+		switch arr.Op {
+		case "store":
+			prev := arr.Args[0]
+			u.assume(nil, c.Implies(c.Neq(c.Root(arr.Args[1]), R), c.Eq(c.App(f, u.heapToken(arr), R), c.App(f, u.heapToken(prev), R))))
+			arr = prev
+		case "ite":
+			u.verChain(arr.Args[1], R)
+			arr = arr.Args[2]
+		case "const":
+			fas := u.frameAx[arr.id]
+			if len(fas) == 0 {
+				return
+			}
+			var prev *Term
+			for _, fa := range fas {
+				if fa.rootCond == nil {
+					continue
+				}
+				u.assume(nil, c.Implies(c.And(fa.guard, fa.rootCond(R)), c.Eq(c.App(f, u.heapToken(arr), R), c.App(f, u.heapToken(fa.prev), R))))
+				prev = fa.prev
+			}
+			if prev == nil {
+				return
+			}
+			arr = prev
+		default:
+			return
+		}
+	}
 }
